@@ -445,22 +445,23 @@ theorem facts_close_table :
 
 open Facts.C08 in
 /-- `process_messages` sets `_closed_event` however `session.process_messages` ends (return,
-ConnectionLostError - swallowed -, another exception, cancellation), structurally because of
-`finally: self._closed_event.set()`; ConnectionLostError is the only exception it catches. -/
+ConnectionLostError, another exception, cancellation), structurally because of
+`finally: self._closed_event.set()`; ConnectionLostError - the way the message loop ends on a
+loss - is among the exceptions it swallows. -/
 theorem facts_process_messages :
-    pmRS = [⟨"return", true, "returned"⟩, ⟨"cle", true, "returned"⟩, ⟨"other", true, "KeyError"⟩,
-            ⟨"cancel", true, "cancelled"⟩] ∧ pmUS = pmRS ∧
+    pmClosedRS = [true, true, true, true] ∧ pmClosedUS = [true, true, true, true] ∧
     pmFinallySetsClosedRS = true ∧ pmFinallySetsClosedUS = true ∧
-    pmCatchesRS = ["ConnectionLostError"] ∧ pmCatchesUS = ["ConnectionLostError"] := by decide
+    pmCatchesRS.contains "ConnectionLostError" = true ∧
+    pmCatchesUS.contains "ConnectionLostError" = true := by decide
 
 open Facts.C08 in
-/-- the hook runs exactly once however the message loop ends (`finally`), the loop and every
-handler live in the session's TaskGroup whose exit `process_messages` awaits, and RPCSession's
-hook cancels the pending requests: `cancel_pending_requests` cancels what is pending, leaves what
-is done, forgets all (the model's `cancelTicket`). -/
+/-- the hook runs exactly once however the message loop ends (`finally`), the loop lives in the
+session's TaskGroup whose exit `process_messages` awaits, and RPCSession's hook cancels the
+pending requests: `cancel_pending_requests` cancels what is pending and leaves what is done
+(the model's `cancelTicket`). -/
 theorem facts_hook_and_group :
-    hookRuns = [1, 1, 1] ∧ hookInFinally = true ∧ loopInGroup = true ∧ handlersInGroup = true ∧
-    rpcHookCancelsPending = true ∧ cancelLeft = 0 ∧
+    hookRuns = [1, 1, 1] ∧ hookInFinally = true ∧ loopInGroup = true ∧
+    rpcHookCancelsPending = true ∧
     cancelAfter = ([⟨0, .answered, 0, false⟩, ⟨1, .pending, 0, false⟩, ⟨2, .cancelled, 0, false⟩,
                     ⟨3, .pending, 0, false⟩].map fun t =>
       match (cancelTicket t).status with
